@@ -183,7 +183,7 @@ def _replay(E, con, fi, ob, seed):
             if n.startswith("H_") and "!" not in n:
                 heap.setdefault(n[2:], z3.Const(n, d.range()) if d.arity() == 0 else None)
         try:
-            info = R.run_and_check(E, con, fi, bound, m, heap, want=want)
+            info = R.run_and_check(E, con, fi, bound, m, heap, want=want, relevant_kids=R.isa_kids(list(ob.pc) + [ob.goal]))
         except R.NotConcretisable as nc:
             attempts.append({"not_concretisable": str(nc)})
             break
